@@ -266,6 +266,13 @@ func (m *ModSets) callArgMods(fn *ssa.Function, call *ssa.CallCommon, lib bool) 
 		return out
 	}
 	args := call.Args
+	if f, ok := call.Value.(*ssa.Function); ok && (f.String() == "sort.SliceStable" || f.String() == "sort.Slice" || f.String() == "sort.Sort" || f.String() == "sort.Stable") {
+		if mi, ok := args[0].(*ssa.MakeInterface); ok {
+			if sl, ok := mi.X.Type().Underlying().(*types.Slice); ok {
+				out = append(out, m.regElem(sl.Elem()))
+			}
+		}
+	}
 	for _, a := range args {
 		if _, isPtr := a.Type().Underlying().(*types.Pointer); isPtr && isLocValue(a) {
 			// an escaping location may be written by the callee
